@@ -91,6 +91,17 @@ struct IntSlot : ISlot {
    TypedArgBase* dest(const std::string& n) override { return celma::prog_args::destination(v, n); }
    std::string json() const override { return std::to_string(v); }
 };
+// double destination: the projection is the number of quarters when the value is an exact multiple of 1/4
+struct DblSlot : ISlot {
+   double v;
+   explicit DblSlot(const vj::Value& init) : v(static_cast<double>(init.num()) / 4.0) {}
+   TypedArgBase* dest(const std::string& n) override { return celma::prog_args::destination(v, n); }
+   std::string json() const override {
+      const double q = v * 4.0;
+      if (q == static_cast<double>(static_cast<long long>(q)) && q < 1e9 && q > -1e9) return std::to_string(static_cast<long long>(q));
+      return "\"inexact\"";
+   }
+};
 struct StrSlot : ISlot {
    std::string v;
    explicit StrSlot(const vj::Value& init) : v(init.bytes()) {}
@@ -176,6 +187,7 @@ static std::unique_ptr<ISlot> makeSlot(const std::string& kind, const vj::Value&
    if (kind == "flag") return std::make_unique<FlagSlot>(init);
    if (kind == "int") return std::make_unique<IntSlot>(init);
    if (kind == "str") return std::make_unique<StrSlot>(init);
+   if (kind == "dbl") return std::make_unique<DblSlot>(init);
    if (kind == "optint") return std::make_unique<OptIntSlot>(init);
    if (kind == "vecint") return std::make_unique<IntContSlot<std::vector<int>>>(init);
    if (kind == "setint") return std::make_unique<IntContSlot<std::set<int>>>(init);
